@@ -185,8 +185,8 @@ impl RateLimiter for RateLimiterService {
             allowed: result.allowed,
             limit: result.limit as i32,
             remaining: result.remaining as i32,
-            retry_after: result.retry_after as i32,
-            reset_after: result.reset_after as i32,
+            retry_after: result.retry_after.min(i32::MAX as i64) as i32,
+            reset_after: result.reset_after.min(i32::MAX as i64) as i32,
         };
 
         Ok(Response::new(response))
